@@ -6,7 +6,7 @@ import random
 
 from .. import core, flow, corr_bm, oracles_bm as ob
 
-PROOFS = ['Tsv.Proofs.BMCore', 'Tsv.Proofs.C05', 'Tsv.Proofs.C06']
+PROOFS = ['Tsv.Proofs.BMCore', 'Tsv.Proofs.C05', 'Tsv.Proofs.C06', 'Tsv.Proofs.C06Wrap']
 TRUSTED = ["Lean 4.33 kernel + Mathlib", "Brownian model tied to the real class by per-query correspondence",
            "Sound.mid_inside (decimal-grid fact about round(x, ndigits)) assumed",
            "'different entropies give different paths' and the quality of numpy SeedSequence / torch.randn: not provable, sampled",
